@@ -47,7 +47,12 @@ RULE = ("utmp files printed from records (every ut_type incl. negative, pid/time
         "net_if_stats(), net_if_addrs(), fed users()/disk_partitions(), with harness-owned descriptors opened in between): every step must "
         "answer as in a fresh process and the descriptors must survive; "
         "fed interface lists through an LD_PRELOAD getifaddrs() shim compiled at check time (AF_PACKET records with sll_halen in "
-        "{0,1,4,6,8,16,20,32,255}, AF_INET/AF_INET6, unknown families, NULL addr/netmask/broadaddr, names up to IFNAMSIZ, every flag mix). "
+        "{0,1,4,6,8,16,20,32,255}, AF_INET/AF_INET6, unknown families, NULL addr/netmask/broadaddr, names up to IFNAMSIZ, every flag mix); "
+        "strings with printf conversions (%s, %s%s%s%s, %n, %1$s, %d, %999d, %%, 100%done, %x..%n, %*d, %hhn, a lone %, random mixes) as the path of "
+        "cext.disk_partitions / as psutil.PROCFS_PATH for psutil.disk_partitions(all=True) (file missing -> ENOENT, path through a regular file -> "
+        "ENOTDIR) and as the name of the four NIC ioctl entry points (ENODEV), each in two child interpreters of the sanitizer build, "
+        "PSUTIL_DEBUG unset and =1, stderr through a pipe: same clean OSError (errno, filename), exit status 0, and every stderr line that "
+        "mentions the string shows it verbatim. "
         "Non-trivial = not the empty file / empty table; distinct = canonical case hash.")
 TRUSTED = ["correspondence harness props/C17.py + props/_c17_iso.py + props/_c17_ifshim.py + pv/ (utmpname() redirection, fake PROCFS_PATH, "
            "fork isolation, getifaddrs() shim)",
@@ -67,7 +72,8 @@ try:
                            "net_if_addrs() was compared with the live interface list only (ifaddrs cases skipped)")
 except Exception:  # pragma: no cover
     pass
-EXHAUSTIVE = {"quick": "argument classes x entry points: full product for one- and two-argument entry points",
+EXHAUSTIVE = {"quick": "argument classes x entry points: full product for one- and two-argument entry points; printf-conversion strings x "
+                       "string-taking entry points (6 targets, failure branch, debug off/on): full product, never sampled",
               "thorough": "argument classes x entry points: full product incl. proc_ioprio_set (pid x ioclass x iodata) and ionice(ioclass, value)"}
 
 W_LINE, W_ID, W_USER, W_HOST = 32, 4, 32, 256
@@ -1401,7 +1407,9 @@ MANIFEST = {
             "thread safety: under an interleaving model of getmntent()'s static storage every thread's result is the sequential decode of its own "
             "file for every schedule as long as read+decode of an entry is atomic (GIL held), refuted for the variant that drops the GIL in "
             "between; tables generated from the C sources on every run show that no GIL-free region calls a function returning static "
-            "storage and that the extension has no modifiable statics beyond the module tables and the debug flag; "
+            "storage, that the extension has no modifiable statics beyond the module tables and the debug flag, and that the FORMAT argument of every "
+            "printf-family call and of every printf-like macro (psutil_debug) is a string literal -- no caller-controlled string is ever a format "
+            "(C17_format_arguments_literal; tied by child-interpreter probes with %-conversions in paths / interface names on the failure branches, debug mode on); "
             "CPU_SET on any long touches bit < 1024 or nothing; the getaffinity sizing loop terminates without int overflow for every kernel "
             "answer; check_pid_range and the argument conversion of all 17 entry points yield a value, a call into the OS or "
             "TypeError/OverflowError/ValueError/UnicodeError for every argument tuple -- no undefined behaviour; ionice() rejects an ioclass "
